@@ -21,41 +21,43 @@ theorem exists_bound (f : Nat → Nat) : ∀ N, ∃ M, ∀ d, d < N → f d ≤ 
     · subst hdn; exact Nat.le_max_right _ _
     · exact Nat.le_trans (hM d (by omega)) (Nat.le_max_left _ _)
 
-/-- A lexicographic maximum of `(a d, b d)` over `d < N`. -/
-theorem exists_lex_max (a b : Nat → Nat) : ∀ N, 0 < N →
-    ∃ c, c < N ∧ ∀ d, d < N → a d < a c ∨ (a d = a c ∧ b d ≤ b c) := by
-  intro N
-  induction N with
-  | zero => intro h; omega
-  | succ n ih =>
+/-- A lexicographic maximum of `(a d, b d)` over a non-empty list. -/
+theorem exists_lex_max (a b : Nat → Nat) : ∀ (l : List Nat), l ≠ [] →
+    ∃ c, c ∈ l ∧ ∀ d, d ∈ l → a d < a c ∨ (a d = a c ∧ b d ≤ b c) := by
+  intro l
+  induction l with
+  | nil => intro h; exact absurd rfl h
+  | cons x xs ih =>
     intro _
-    by_cases hn : n = 0
-    · subst hn
-      refine ⟨0, by omega, fun d hd => ?_⟩
-      have hd0 : d = 0 := by omega
-      subst hd0; exact Or.inr ⟨rfl, Nat.le_refl _⟩
-    · obtain ⟨c, hc, hmax⟩ := ih (by omega)
-      by_cases hcmp : a c < a n ∨ (a c = a n ∧ b c ≤ b n)
-      · refine ⟨n, by omega, fun d hd => ?_⟩
-        by_cases hdn : d = n
-        · subst hdn; exact Or.inr ⟨rfl, Nat.le_refl _⟩
-        · have := hmax d (by omega); omega
-      · refine ⟨c, by omega, fun d hd => ?_⟩
-        by_cases hdn : d = n
-        · subst hdn; omega
-        · exact hmax d (by omega)
+    by_cases hxs : xs = []
+    · subst hxs
+      refine ⟨x, by simp, fun d hd => ?_⟩
+      simp at hd; subst hd; exact Or.inr ⟨rfl, Nat.le_refl _⟩
+    · obtain ⟨c, hc, hmax⟩ := ih hxs
+      by_cases hcmp : a c < a x ∨ (a c = a x ∧ b c ≤ b x)
+      · refine ⟨x, by simp, fun d hd => ?_⟩
+        rcases List.mem_cons.mp hd with h | h
+        · subst h; exact Or.inr ⟨rfl, Nat.le_refl _⟩
+        · have := hmax d h; omega
+      · refine ⟨c, List.mem_cons_of_mem _ hc, fun d hd => ?_⟩
+        rcases List.mem_cons.mp hd with h | h
+        · subst h; omega
+        · exact hmax d h
 
-/-- Some voter's log is at least as up to date as every voter's log. -/
-theorem exists_most_up_to_date {N : Nat} (s : State) (hN : 0 < N) :
-    ∃ c, c < N ∧ ∀ d, d < N →
+/-- Some node of a non-empty list holds a log at least as up to date as every node of the list. -/
+theorem exists_most_up_to_date (s : State) (Q : List Nat) (hQ : Q ≠ []) :
+    ∃ c, c ∈ Q ∧ ∀ d, d ∈ Q →
       upToDate (lastTerm (s.nodes c).log) ((s.nodes c).log.length - 1) (s.nodes d).log = true := by
   obtain ⟨c, hc, hmax⟩ := exists_lex_max (fun d => lastTerm (s.nodes d).log)
-    (fun d => (s.nodes d).log.length - 1) N hN
+    (fun d => (s.nodes d).log.length - 1) Q hQ
   refine ⟨c, hc, fun d hd => ?_⟩
   have := hmax d hd
   simp only [upToDate, Bool.and_eq_true, Bool.not_eq_true', decide_eq_false_iff_not, Bool.and_eq_false_iff,
     beq_eq_false_iff_ne, ne_eq]
   omega
+
+theorem quorum_ne_nil {N : Nat} {Q : List Nat} (hQ : IsQuorum N Q) : Q ≠ [] := by
+  intro h; have := hQ.2.2; rw [h] at this; simp at this
 
 /-- `j` fruitless election timeouts (no vote requested): the term grows by `j`. -/
 theorem raise_term {N : Nat} {c : Nat} (hc : c < N) : ∀ (j : Nat) (s : State),
@@ -81,16 +83,18 @@ theorem raise_term {N : Nat} {c : Nat} (hc : c < N) : ∀ (j : Nat) (s : State),
       refine ⟨s2, by rw [List.replicate_succ]; exact run_cons_some hs1 hr2, by rw [hT2, hT1]; omega, hnl2,
         by rw [hlog2, hlog1], by rw [hcm2, hcm1], fun x hx => by rw [hfr2 x hx, hfr1 x hx]⟩
 
-/-- From any reachable state the most up-to-date voter can win an election in a term above every
-voter's current term. -/
-theorem elect {N : Nat} {s : State} (hR : Reachable N s) {c : Nat} (hc : c < N)
-    (hmax : ∀ d, d < N → upToDate (lastTerm (s.nodes c).log) ((s.nodes c).log.length - 1) (s.nodes d).log = true) :
+/-- From any reachable state, a voter of a connected majority `Q` whose log is the most up to date
+within `Q` can win an election in a term above every voter's current term, using only nodes of `Q`. -/
+theorem elect {N : Nat} {s : State} (Q : List Nat) (hQ : IsQuorum N Q) (hR : Reachable N s) {c : Nat}
+    (hcQ : c ∈ Q)
+    (hmax : ∀ d, d ∈ Q → upToDate (lastTerm (s.nodes c).log) ((s.nodes c).log.length - 1) (s.nodes d).log = true) :
     ∃ as s', NoFault as ∧ run N s as = some s' ∧ Reachable N s' ∧ (s'.nodes c).role = .leader ∧
       (∀ d, d < N → (s.nodes d).term < (s'.nodes c).term) ∧
-      (∀ d, d < N → (s'.nodes d).term = (s'.nodes c).term) ∧
+      (∀ d, d ∈ Q → (s'.nodes d).term = (s'.nodes c).term) ∧
       (s'.nodes c).log = (s.nodes c).log ++ [⟨(s'.nodes c).term, 0⟩] ∧
       (s'.nodes c).commit = (s.nodes c).commit ∧
-      (∀ x, N ≤ x → s'.nodes x = s.nodes x) := by
+      (∀ x, x ∉ Q → s'.nodes x = s.nodes x) := by
+  have hc : c < N := hQ.2.1 c hcQ
   obtain ⟨M, hM⟩ := exists_bound (fun d => (s.nodes d).term) N
   -- (a) step down if leading
   obtain ⟨as0, s0, hnf0, hrun0, hnl0, hT0, hlog0, hcm0, hfr0⟩ :
@@ -115,10 +119,13 @@ theorem elect {N : Nat} {s : State} (hR : Reachable N s) {c : Nat} (hc : c < N)
       have h1 := hM d hd; have h2 := hM c hc
       omega
   obtain ⟨s1, hrun1, hT1, hnl1, hlog1, hcm1, hfr1⟩ := raise_term (N := N) hc j s0 hj hnl0
-  -- (c) the timeout that requests the votes
+  -- (c) the timeout that requests the votes of the connected voters
+  have herase : ∀ d, d ∈ Q.erase c → d ∈ Q ∧ d ≠ c := fun d hd =>
+    ⟨List.mem_of_mem_erase hd, fun e => ((List.Nodup.mem_erase_iff hQ.1).mp hd).1 e⟩
   obtain ⟨s2, hs2, hfr2, hT2, hcm2, _, hreq2, _, hcase2⟩ :=
-    step_timeout (N := N) (s := s1) (n := c) (dsts := others N c) hc hnl1 (fun d hd => mem_others.mp hd)
-  have hrun2 : run N s (as0 ++ (List.replicate j (.timeout c []) ++ [.timeout c (others N c)])) = some s2 :=
+    step_timeout (N := N) (s := s1) (n := c) (dsts := Q.erase c) hc hnl1
+      (fun d hd => ⟨hQ.2.1 d (herase d hd).1, (herase d hd).2⟩)
+  have hrun2 : run N s (as0 ++ (List.replicate j (.timeout c []) ++ [.timeout c (Q.erase c)])) = some s2 :=
     run_append_some hrun0 (run_append_some hrun1 (run_one hs2))
   have hR2 : Reachable N s2 := reachable_of_run hR hrun2
   obtain ⟨T, hT⟩ : ∃ T, (s.nodes c).term + j + 1 = T := ⟨_, rfl⟩
@@ -130,35 +137,41 @@ theorem elect {N : Nat} {s : State} (hR : Reachable N s) {c : Nat} (hc : c < N)
   rw [hT1, hT0, hT, hL1] at hcase2
   rw [hT] at hjT
   rw [hL] at hmax
-  -- (d) every other voter grants, every vote is delivered
+  have hQlen : (Q.erase c).length + 1 = Q.length := by
+    rw [List.length_erase_of_mem hcQ]
+    have : 0 < Q.length := List.length_pos_of_mem hcQ
+    omega
+  -- (d) every other connected voter grants, every vote is delivered
   let IE : List Nat → State → Prop := fun rest s' =>
     Reachable N s' ∧ (s'.nodes c).term = T ∧ (s'.nodes c).commit = (s.nodes c).commit ∧
     (((s'.nodes c).role = .leader ∧ (s'.nodes c).log = L ++ [⟨T, 0⟩]) ∨
-     ((s'.nodes c).role = .candidate ∧ (s'.nodes c).log = L ∧ (s'.nodes c).votes + rest.length = N ∧
+     ((s'.nodes c).role = .candidate ∧ (s'.nodes c).log = L ∧ (s'.nodes c).votes + rest.length = Q.length ∧
         isMajority N (s'.nodes c).votes = false)) ∧
-    (∀ d ∈ rest, d < N ∧ d ≠ c ∧ Msg.reqVote T c d (L.length - 1) (lastTerm L) ∈ s'.msgs ∧
+    (∀ d ∈ rest, d ∈ Q ∧ d ≠ c ∧ Msg.reqVote T c d (L.length - 1) (lastTerm L) ∈ s'.msgs ∧
         (s'.nodes d).term < T ∧ (s'.nodes d).log = (s.nodes d).log) ∧
     rest.Nodup ∧
-    (∀ d, d < N → d ≠ c → d ∉ rest → (s'.nodes d).term = T) ∧
-    (∀ x, N ≤ x → s'.nodes x = s.nodes x)
-  have hE0 : IE (others N c) s2 := by
-    refine ⟨hR2, hTc2, by rw [hcm2, hcm1, hcm0], ?_, ?_, others_nodup N c,
-      fun d h1 h2 h3 => absurd (mem_others.mpr ⟨h1, h2⟩) h3, fun x hx => hoth2 x (by omega)⟩
+    (∀ d, d ∈ Q → d ≠ c → d ∉ rest → (s'.nodes d).term = T) ∧
+    (∀ x, x ∉ Q → s'.nodes x = s.nodes x)
+  have hE0 : IE (Q.erase c) s2 := by
+    refine ⟨hR2, hTc2, by rw [hcm2, hcm1, hcm0], ?_, ?_, hQ.1.erase c,
+      fun d h1 h2 h3 => absurd ((List.mem_erase_of_ne h2).mpr h1) h3,
+      fun x hx => hoth2 x (fun e => hx (e ▸ hcQ))⟩
     · rcases hcase2 with ⟨_, h1, h2⟩ | ⟨h0, h1, h2, h3⟩
       · exact Or.inl ⟨h1, h2⟩
       · refine Or.inr ⟨h1, h2, ?_, by rw [h3]; exact h0⟩
-        rw [h3, others_length hc]; omega
+        rw [h3]; omega
     · intro d hd
-      obtain ⟨hdN, hdc⟩ := mem_others.mp hd
-      exact ⟨hdN, hdc, hreq2 d hd, by rw [hoth2 d hdc]; exact hjT d hdN, by rw [hoth2 d hdc]⟩
+      obtain ⟨hdQ, hdc⟩ := herase d hd
+      exact ⟨hdQ, hdc, hreq2 d hd, by rw [hoth2 d hdc]; exact hjT d (hQ.2.1 d hdQ), by rw [hoth2 d hdc]⟩
   obtain ⟨asE, sE, hnfE, hrunE, hRE, hTE, hcmE, hcaseE, _, _, hdoneE, hobsE⟩ :=
     run_foreach (N := N) IE (by
       intro d rest s' ⟨hR', hT', hcm', hcase', hrest', hnd', hdone', hobs'⟩
-      obtain ⟨hdN, hdc, hreq, hdT, hdlog⟩ := hrest' d List.mem_cons_self
+      obtain ⟨hdQ, hdc, hreq, hdT, hdlog⟩ := hrest' d List.mem_cons_self
+      have hdN : d < N := hQ.2.1 d hdQ
       have hdnr : d ∉ rest := (List.nodup_cons.mp hnd').1
       obtain ⟨s3, hs3, hfr3, hT3, _, _, _, _, hmsgs3⟩ :=
         step_recvReqVote_grant (N := N) (s := s') (n := d) (t := T) (cand := c) hdN hc (fun e => hdc e.symm)
-          hreq hdT (by rw [hdlog]; exact hmax d hdN)
+          hreq hdT (by rw [hdlog]; exact hmax d hdQ)
       have hc3 : s3.nodes c = s'.nodes c := hfr3 c (fun e => hdc e.symm)
       obtain ⟨s4, hs4, hfr4, hmsgs4, hT4, hcm4, _, hcase4⟩ :=
         step_recvVote (N := N) (s := s3) (n := c) (t := T) (voter := d) hc
@@ -167,7 +180,8 @@ theorem elect {N : Nat} {s : State} (hR : Reachable N s) {c : Nat} (hc : c < N)
           .recvVote c (.vote T d c)] = some s4 := run_cons_some hs3 (run_one hs4)
       refine ⟨_, s4, noFault_of_forall (by simp [Action.isFault]), hrun, reachable_of_run hR' hrun,
         by rw [hT4, hc3]; exact hT', by rw [hcm4, hc3]; exact hcm', ?_, ?_, (List.nodup_cons.mp hnd').2, ?_,
-        fun x hx => by rw [hfr4 x (by omega), hfr3 x (by omega)]; exact hobs' x hx⟩
+        fun x hx => by
+          rw [hfr4 x (fun e => hx (e ▸ hcQ)), hfr3 x (fun e => hx (e ▸ hdQ))]; exact hobs' x hx⟩
       · rw [hc3] at hcase4
         rcases hcase' with ⟨hr', hl'⟩ | ⟨hr', hl', hv', hm'⟩
         · rcases hcase4 with ⟨h, _⟩ | ⟨h, _⟩ | ⟨_, h⟩
@@ -180,22 +194,22 @@ theorem elect {N : Nat} {s : State} (hR : Reachable N s) {c : Nat} (hc : c < N)
             rw [h3]; simp only [List.length_cons] at hv'; omega
           · exact absurd ⟨hr', hT'.symm⟩ h
       · intro x hx
-        obtain ⟨hxN, hxc, hxreq, hxT, hxlog⟩ := hrest' x (List.mem_cons_of_mem _ hx)
+        obtain ⟨hxQ, hxc, hxreq, hxT, hxlog⟩ := hrest' x (List.mem_cons_of_mem _ hx)
         have hxd : x ≠ d := fun e => hdnr (e ▸ hx)
-        refine ⟨hxN, hxc, ?_, by rw [hfr4 x hxc, hfr3 x hxd]; exact hxT, by rw [hfr4 x hxc, hfr3 x hxd]; exact hxlog⟩
+        refine ⟨hxQ, hxc, ?_, by rw [hfr4 x hxc, hfr3 x hxd]; exact hxT, by rw [hfr4 x hxc, hfr3 x hxd]; exact hxlog⟩
         rw [hmsgs4, hmsgs3]
         refine (List.mem_erase_of_ne (by simp)).mpr (List.mem_append_left _ ?_)
         exact (List.mem_erase_of_ne (by simp [hxd])).mpr hxreq
-      · intro x hxN hxc hxr
+      · intro x hxQ hxc hxr
         by_cases hxd : x = d
         · subst hxd; rw [hfr4 x hxc]; exact hT3
-        · rw [hfr4 x hxc, hfr3 x hxd]; exact hdone' x hxN hxc (by simp [hxd, hxr])) (others N c) s2 hE0
+        · rw [hfr4 x hxc, hfr3 x hxd]; exact hdone' x hxQ hxc (by simp [hxd, hxr])) (Q.erase c) s2 hE0
   have hldr : (sE.nodes c).role = .leader ∧ (sE.nodes c).log = L ++ [⟨T, 0⟩] := by
     rcases hcaseE with h | ⟨_, _, hv, hm⟩
     · exact h
     · simp only [List.length_nil, Nat.add_zero] at hv
       rw [hv] at hm
-      have : isMajority N N = true := by rw [isMajority_iff]; omega
+      have : isMajority N Q.length = true := by rw [isMajority_iff]; exact hQ.2.2
       rw [this] at hm; cases hm
   refine ⟨_, sE, ?_, run_append_some hrun2 hrunE, hRE, hldr.1, ?_, ?_, by rw [hldr.2, hTE, hL], hcmE, hobsE⟩
   · exact (hnf0.append ((NoFault.replicate rfl).append (noFault_of_forall (by simp [Action.isFault])))).append hnfE
@@ -205,47 +219,53 @@ theorem elect {N : Nat} {s : State} (hR : Reachable N s) {c : Nat} (hc : c < N)
     · subst hdc; rfl
     · rw [hTE]; exact hdoneE d hd hdc (by simp)
 
-/-- **No wedge.** From every reachable state of a cluster with at least one voter — whatever happened
-before: any interleaving of elections, partial replication, snapshots, message loss, restarts, stale
-messages still in flight — there is a continuation without any fault action (no restart, no message
-loss; stale messages just stay in flight) after which one voter leads a term above every earlier
-voter term and every voter and every listed observer holds the leader's log, has committed and applied
+/-- **No wedge.** From every reachable state — whatever happened before: any interleaving of
+elections, partial replication, snapshots, message loss, restarts, stale messages still in flight — and
+for every majority `Q` of voters that can exchange messages (plus connected observers `obs`) there is a
+continuation without any fault action (no restart, no message loss; stale messages just stay in flight)
+that leaves every node outside `Q ∪ obs` untouched, after which one voter of `Q` leads a term above
+every earlier voter term and every node of `Q ∪ obs` holds the leader's log, has committed and applied
 all of it.  (`hobsT`: an observer's term was learnt from a voter.) -/
-theorem no_wedge_run {N : Nat} {s : State} (obs : List Nat) (hobs : ∀ o ∈ obs, N ≤ o)
+theorem no_wedge_run {N : Nat} {s : State} (Q obs : List Nat) (hQ : IsQuorum N Q) (hobs : ∀ o ∈ obs, N ≤ o)
     (hobsT : ∀ o ∈ obs, ∃ d, d < N ∧ (s.nodes o).term ≤ (s.nodes d).term)
-    (hN : 0 < N) (hR : Reachable N s) :
-    ∃ as s' c, NoFault as ∧ run N s as = some s' ∧ Converged N obs s' c ∧
+    (hR : Reachable N s) :
+    ∃ as s' c, NoFault as ∧ run N s as = some s' ∧ Converged N Q obs s' c ∧
       (∀ d, d < N → (s.nodes d).term < (s'.nodes c).term) ∧
-      (s'.nodes c).log = (s.nodes c).log ++ [⟨(s'.nodes c).term, 0⟩] := by
-  obtain ⟨c, hc, hmax⟩ := exists_most_up_to_date s hN
-  obtain ⟨as1, s1, hnf1, hrun1, hR1, hr1, hgt1, hterm1, hlog1, hcm1, hfr1⟩ := elect hR hc hmax
+      (s'.nodes c).log = (s.nodes c).log ++ [⟨(s'.nodes c).term, 0⟩] ∧
+      (∀ x, ¬ InScope Q obs x → s'.nodes x = s.nodes x) := by
+  obtain ⟨c, hcQ, hmax⟩ := exists_most_up_to_date s Q (quorum_ne_nil hQ)
+  obtain ⟨as1, s1, hnf1, hrun1, hR1, hr1, hgt1, hterm1, hlog1, hcm1, hfr1⟩ := elect Q hQ hR hcQ hmax
   have hlen : (s1.nodes c).log.length - 1 = (s.nodes c).log.length := by rw [hlog1]; simp
-  obtain ⟨as2, s2, hnf2, hrun2, hconv, hlog2, hterm2⟩ := round obs hobs hR1 hc hr1
+  have hobsQ : ∀ o ∈ obs, o ∉ Q := fun o ho hq => by
+    have := hobs o ho; have := hQ.2.1 o hq; omega
+  obtain ⟨as2, s2, hnf2, hrun2, hconv, hlog2, hterm2, hfr2⟩ := round Q obs hQ hobs hR1 hcQ hr1
     (by
       intro d hd
       rcases hd with h | h
       · rw [hterm1 d h]
       · obtain ⟨v, hv, hle⟩ := hobsT d h
-        rw [hfr1 d (hobs d h)]
+        rw [hfr1 d (hobsQ d h)]
         exact Nat.le_of_lt (Nat.lt_of_le_of_lt hle (hgt1 v hv)))
     (by rw [hlen]; rw [hlog1]; exact termAt_append_last _ _)
     (by rw [hlen, hcm1]; exact (inv_reachable hR).s.cm_lt c)
-  refine ⟨as1 ++ as2, s2, c, hnf1.append hnf2, run_append_some hrun1 hrun2, hconv, ?_, ?_⟩
+  refine ⟨as1 ++ as2, s2, c, hnf1.append hnf2, run_append_some hrun1 hrun2, hconv, ?_, ?_, ?_⟩
   · intro d hd; rw [hterm2]; exact hgt1 d hd
   · rw [hlog2, hterm2]; exact hlog1
+  · intro x hx; rw [hfr2 x hx]; exact hfr1 x (fun h => hx (Or.inl h))
 
 /-- After convergence a new command submitted to the leader is replicated to, committed and applied
-by every voter and observer (again without any fault action). -/
-theorem converged_progress {N : Nat} {s : State} {c : Nat} (obs : List Nat) (hobs : ∀ o ∈ obs, N ≤ o)
-    (hR : Reachable N s) (hcv : Converged N obs s c) (cmd : Nat) :
-    ∃ as s', NoFault as ∧ run N s (.clientAppend c cmd :: as) = some s' ∧ Converged N obs s' c ∧
+by every connected voter and observer (again without any fault action, nobody else involved). -/
+theorem converged_progress {N : Nat} {s : State} {c : Nat} (Q obs : List Nat) (hQ : IsQuorum N Q)
+    (hobs : ∀ o ∈ obs, N ≤ o) (hR : Reachable N s) (hcv : Converged N Q obs s c) (cmd : Nat) :
+    ∃ as s', NoFault as ∧ run N s (.clientAppend c cmd :: as) = some s' ∧ Converged N Q obs s' c ∧
       (s'.nodes c).log = (s.nodes c).log ++ [⟨(s.nodes c).term, cmd⟩] ∧
-      (s'.nodes c).term = (s.nodes c).term := by
+      (s'.nodes c).term = (s.nodes c).term ∧
+      (∀ x, ¬ InScope Q obs x → s'.nodes x = s.nodes x) := by
   obtain ⟨s1, hs1, hfr1, hc1, _⟩ := step_clientAppend (N := N) (s := s) (n := c) (cmd := cmd) hcv.cN hcv.ldr
   have hR1 : Reachable N s1 := Reachable.step hR hs1
   have hLpos := log_pos (inv_reachable hR) c
   have hlen : (s1.nodes c).log.length - 1 = (s.nodes c).log.length := by rw [hc1]; simp
-  obtain ⟨as2, s2, hnf2, hrun2, hconv, hlog2, hterm2⟩ := round (s := s1) obs hobs hR1 hcv.cN
+  obtain ⟨as2, s2, hnf2, hrun2, hconv, hlog2, hterm2, hfr2⟩ := round (s := s1) Q obs hQ hobs hR1 hcv.cQ
     (by rw [hc1]; exact hcv.ldr)
     (by
       intro d hd
@@ -253,12 +273,13 @@ theorem converged_progress {N : Nat} {s : State} {c : Nat} (obs : List Nat) (hob
       · subst hdc; exact Nat.le_refl _
       · rw [hfr1 d hdc, hc1]; exact Nat.le_of_eq (hcv.term_eq d hd))
     (by rw [hlen]; rw [hc1]; exact termAt_append_last _ _)
-    (by rw [hlen, hc1]; simp only []; rw [hcv.commit_eq c (Or.inl hcv.cN)]; omega)
-  refine ⟨as2, s2, hnf2, run_cons_some hs1 hrun2, hconv, by rw [hlog2, hc1], by rw [hterm2, hc1]⟩
+    (by rw [hlen, hc1]; simp only []; rw [hcv.commit_eq c (Or.inl hcv.cQ)]; omega)
+  refine ⟨as2, s2, hnf2, run_cons_some hs1 hrun2, hconv, by rw [hlog2, hc1], by rw [hterm2, hc1], ?_⟩
+  intro x hx; rw [hfr2 x hx]; exact hfr1 x (fun e => hx (e ▸ Or.inl hcv.cQ))
 
-/-- In a converged state nobody else leads the leader's term (voter or observer). -/
-theorem converged_unique_leader {N : Nat} {s : State} {c : Nat} {obs : List Nat} (hR : Reachable N s)
-    (hcv : Converged N obs s c)
+/-- In a converged state nobody else leads the leader's term (voter or observer, connected or not). -/
+theorem converged_unique_leader {N : Nat} {s : State} {c : Nat} {Q obs : List Nat} (hR : Reachable N s)
+    (hcv : Converged N Q obs s c)
     {n : Nat} (hr : (s.nodes n).role = .leader) (ht : (s.nodes n).term = (s.nodes c).term) : n = c :=
   leaders_unique (inv_reachable hR).e hr hcv.ldr ht
 
